@@ -261,6 +261,13 @@ func HarnessC18Collect() {
 	vndAssert(err == nil, "instrument-created")
 	v := int64(vndInt(0, 1000))
 	ctr.Add(context.Background(), v, metric.WithAttributes(attribute.String("a", "1")))
+	// a second scope with the same name and version but its own scope attributes
+	two := vndChoice(2) == 1
+	if two {
+		c2, err := mp.Meter("sc", metric.WithInstrumentationVersion("v1"), metric.WithInstrumentationAttributes(attribute.String("team", "x"))).Int64Counter("hits2")
+		vndAssert(err == nil, "instrument-created")
+		c2.Add(context.Background(), 1)
+	}
 	for round := 0; round < 2; round++ {
 		got := c18Scrape(reg.c)
 		vndReach("scraped")
@@ -279,10 +286,21 @@ func HarnessC18Collect() {
 		if noScope {
 			vndAssert(len(si) == 0, "scope-info-absent-when-disabled")
 		} else {
-			vndAssert(len(si) == 1, "scope-info-present-as-configured")
-			if len(si) == 1 {
-				l := c18Labels(si[0])
+			wantSI := 1
+			if two {
+				wantSI = 2
+			}
+			vndAssert(len(si) == wantSI, "scope-info-present-as-configured")
+			teams := 0
+			for _, m := range si {
+				l := c18Labels(m)
 				vndAssert(l["otel_scope_name"] == "sc" && l["otel_scope_version"] == "v1", "scope-info-carries-the-scope")
+				if l["team"] == "x" {
+					teams++
+				}
+			}
+			if two {
+				vndAssert(teams == 1, "scope-info-distinguishes-scopes-by-their-attributes")
 			}
 		}
 		hs := got["hits_total"]
@@ -307,6 +325,13 @@ func HarnessC18Collect() {
 		}
 		if !noScope {
 			want++
+		}
+		if two {
+			want++ // hits2_total
+			if !noScope {
+				want++
+			}
+			vndAssert(len(got["hits2_total"]) == 1, "one-series-per-data-point")
 		}
 		vndAssert(n == want, "nothing-else-is-exposed")
 	}
